@@ -3,6 +3,9 @@ import math
 from fractions import Fraction as F
 from core import Stream, q, coq_list
 
+from props import C03 as _C03
+generated_model = _C03.generated_model          # the resamplers stamp every interpolated observation with ObsTime.readUnixTime: its translation from the source (see C03) is re-checked here too
+
 PROP = 'C05'
 THEOREM_FILE = 'Props/C05.v'
 NOTES = ['exact streams use dyadic coordinates, abscissas and steps so that binary64 arithmetic is exact and bracket decisions (ties included) are the same on both sides; positions compared to 1e-9',
